@@ -39,10 +39,12 @@ P("C02", ["BOX", "SIGN", "FDB"],
   "bounds pick the bound the direction points to; (FDB) the caller's box is the box handed to the differencer.",
   "nothing of the statement is left out, under the assumptions np.clip is exact and SciPy's approx_derivative "
   "keeps its stencil inside `bounds`", design="3/C02")
-P("C03", ["DOWNHILL", "KEEP", "LSCAP"],
+P("C03", ["DOWNHILL", "ACCEPT", "KEEP", "LSCAP"],
   "The selection logic only compares objective values, so its correctness is a dataflow fact: (DOWNHILL) an "
   "order-fact analysis of line_search proves the returned step is None or a step whose evaluated value is "
-  "strictly below the (never overwritten) start value; (KEEP) the failed-search branch does not touch "
+  "strictly below the (never overwritten) start value, NaN trial values never qualify; (ACCEPT) inside the main loop "
+  "the iterate is only ever redefined as the projection of x + s*d with s the step returned by this iteration's "
+  "line search; (KEEP) the failed-search branch does not touch "
   "(x, fun, jac); (LSCAP) the per-iteration evaluation cap is min(.., maxfun - nfev).",
   "monotonicity under non-determinism or rounding of the user's objective itself", design="3/C03")
 P("C04", ["EXIT", "RET", "NITB", "LSCAP", "ONCE"],
@@ -70,13 +72,15 @@ P("C06", ["ORIENT", "FIELDS", "MEM"],
   "variable it came from; (MEM) the refill is bounded by maxcor+1 points and drops from the left, so reducing "
   "maxcor keeps the most recent pairs.",
   "agreement 'up to rounding' of the continued iterates with the uninterrupted run (arithmetic)", design="3/C06")
-P("C07", ["ESC", "NITOFF", "SIB", "CBUSE"],
+P("C07", ["ESC", "NITOFF", "SIB", "CBUSE", "CNT", "FIELDS", "ORIENT"],
   "(ESC) may-alias origins of everything handed to the callback are disjoint from the targets of every in-place "
   "write reachable afterwards; (NITOFF) counter-offset analysis: the state's nit equals the nit of a run stopped "
   "at that iteration; (SIB) the state and the final result bind the same keywords to the same expressions; "
   "(CBUSE) the callback's result only decides the user-callback stop and nothing else depends on the presence "
-  "of a callback.",
-  "'obtains the same continuation' (composition with C06; numerical)", design="3/C07")
+  "of a callback; for the restart-from-a-retained-state clause the restore side is decided too: (CNT) counters "
+  "restored into the wrapper from the right fields before any evaluation, (FIELDS) writer/reader field agreement, "
+  "(ORIENT) the history decoder inverts the encoder.",
+  "numerical equality of the continuation with the uninterrupted run", design="3/C07")
 P("C08", ["IDX", "SIGN", "PIN", "CPFORM", "RATIOFORM"],
   "(IDX) index-space typing of the breakpoint bookkeeping (the property's named defect); (SIGN) breakpoints "
   "t >= 0 on both branches, pinned bound on the side of d, f' <= 0, f'' >= 0 at their definitions; (PIN) "
